@@ -246,6 +246,11 @@ type xClient struct {
 	OnReturn func(st *xState, ret *ssa.Return, results []xVal)
 	// OnPanic is called when a path ends in a panic (optional).
 	OnPanic func(st *xState, in ssa.Instruction)
+	// Outer (optional, goroutine bodies): what a value of the function that
+	// started this goroutine (an argument of the go statement, a captured
+	// variable, a parameter of the launcher helper the go statement sits in)
+	// is on the starter's path at the go statement.
+	Outer func(v ssa.Value) (xVal, bool)
 	// OnOnce is called for (*sync.Once).Do(f): entered=true on the path that
 	// runs f (the first Do), false on the path that skips it (optional; without
 	// it Do(f) is opaque).
@@ -973,7 +978,17 @@ func (x *xplorer) funcOf(cv xVal) (*ssa.Function, *xVal) {
 			var only ssa.Value
 			ok := true
 			roots := st.Static(cv)
-			for _, r := range roots {
+			for i, r := range roots {
+				if x.cl.Outer != nil {
+					// a parameter / variable of the starter: ask what it holds there
+					if ov, ok := x.cl.Outer(r); ok && ov.K == xAtom {
+						switch ov.V.(type) {
+						case *ssa.MakeClosure, *ssa.Function:
+							roots[i] = ov.V
+							r = ov.V
+						}
+					}
+				}
 				switch r.(type) {
 				case *ssa.MakeClosure, *ssa.Function:
 				default:
